@@ -285,6 +285,57 @@ def run(ctx: Ctx):
                          f"{fn_name} releases the {key[0]}.{key[1]} entry only under {extra}: on the "
                          f"other branch (e.g. a connection that maps to no configured peer) the "
                          f"entry is retained for ever")
+    # the function that completes a transaction releases its record on EVERY path on which the
+    # record is present: a return, or an exception, between finding the record and removing it
+    # leaves one entry behind per transaction that takes that path
+    from ..effects import effects_of as _eff_of
+    Eg = _eff_of(model)
+    for tbl, fn_name in (("_origin_waiting_answer", "_record_answer"),
+                         ("_app_waiting_answer", "_receive_app_answer")):
+        fr = model.cls("node.node", "Node").methods.get(fn_name)
+        cons = f"Node.{tbl}:released-on-every-path({fn_name})"
+        ctx.inst(cons)
+        if fr is None:
+            continue
+        ge = cfg_of(fr, effects=Eg, inline=False)
+        ate = Atomizer(model, fr.module, fr.cls)
+        rel = [x for x in ge.nodes if x.kind == "stmt" and any(
+            (isinstance(c.func, ast.Attribute) and c.func.attr == "pop" and A.dotted(c.func.value) == f"self.{tbl}")
+            for c in x.calls())] + [x for x in ge.nodes if x.kind == "stmt" and isinstance(x.ast, ast.Delete)
+                                    and f"self.{tbl}" in ast.unparse(x.ast)]
+        if not rel:
+            continue        # reported by the rule above
+        # locals holding the result of <table>.get(key): None means "no record"
+        holders = {t.id for x in A.walk_no_nested(fr.node) if isinstance(x, ast.Assign)
+                   and isinstance(x.value, ast.Call) and isinstance(x.value.func, ast.Attribute)
+                   and x.value.func.attr == "get" and A.dotted(x.value.func.value) == f"self.{tbl}"
+                   for t in x.targets if isinstance(t, ast.Name)}
+
+        def absent(fs):
+            return any((f_[1] == "in-expr" and f_[2] == f"self.{tbl}" and f_[3] is False)
+                       or (f_[0] in holders and ((f_[1] == "is" and f_[2] is None and f_[3] is True)
+                                                 or (f_[1] == "truthy" and f_[3] is False))) for f_ in fs)
+        before = ge.reach([ge.entry], blocked=rel)
+        for x in sorted(before, key=lambda y: y.line):
+            leaves = (x.kind == "stmt" and isinstance(x.ast, ast.Return)) or any(d is ge.exit for l, d in x.succ)
+            escapes = bool(x.raises) and any(d is ge.raise_exit for l, d in x.succ if l in ("exc", "raise"))
+            if not (leaves or escapes) or x is ge.entry:
+                continue
+            fs = must_facts(ge, ate, x)
+            if absent(fs):
+                continue
+            if escapes and not leaves:
+                # a statement that precedes the look-up itself cannot strand a record it has not found
+                gets = [y for y in ge.nodes if y.kind in ("stmt", "test") and f"self.{tbl}" in ast.unparse(y.ast)]
+                if gets and not any(ge.can_reach(y, x) and y is not x for y in gets):
+                    continue
+            ctx.fail(cons, ge.loc(x), f"{fn_name} can {'return' if leaves else 'raise ' + str(sorted(x.raises))} at "
+                     f"`{x.text(60)}` with the record of the transaction still in Node.{tbl}: every "
+                     f"transaction that takes this path leaves its entry behind, the table grows with "
+                     f"the number of such transactions"
+                     + (f" ({'; '.join(Eg.why_at(fr, sorted(x.raises)[0], x.line))[:160]})" if escapes and not leaves else ""),
+                     expected=f"self.{tbl}.pop(key) before every exit on which the record was found")
+            break
     # Application._answer_waiting: in finally
     app = model.cls("node.application", "Application")
     sr = app.methods.get("send_request")
